@@ -1,7 +1,7 @@
 from .base import *
 
 ID = 'C13'
-THEOREMS = ['C13_distance_encoding', 'C13_mag_diff', 'C13_invert_panic', 'C13_radicand_value', 'C13_distance_value', 'C13_radicand_def', 'C13_symmetry', 'C13_law_of_cosines', 'C13_distance_euclid', 'C13_triangle', 'C13_equals_sub', 'C13_dist_tol_def']
+THEOREMS = ['C13_distance_encoding', 'C13_mag_diff', 'C13_invert_panic', 'C13_radicand_value', 'C13_distance_value', 'C13_radicand_def', 'C13_symmetry', 'C13_law_of_cosines', 'C13_distance_euclid', 'C13_triangle', 'C13_equals_sub', 'C13_dist_tol_def', 'C13_inversion_value']
 OWNED = {'GDist', 'GMagDiff', 'GInvCircle'}
 RULE = ('points from the C01 domain incl. coincident and k-ulp-apart points on one ray, whole-turn twins, collinear triples; distance both ways, to itself, vs |a-b|, triangle inequality over triples; mag_diff; '
         'circle inversion with radius and centre offset over eight decades, points on the circle, the centre itself, double inversion. non-trivial = owned op result differs from its operands')
@@ -48,5 +48,5 @@ def generate(rng, tier):
 LEVEL_TEXT = ('Kernel-checked theorems for EVERY libm and EVERY input: distance_to returns a number at angle exactly 0 (blade 0, remainder 0) whose magnitude is never NaN and never negative (repaired defect F4); '
               'mag_diff is fabs(fsub ..); invert_circle panics exactly when the computed offset p - c has zero magnitude. '
               'C13_radicand_value / C13_distance_value (S2, REAL pi and cos): for any libm with |cosF - cos| <= u on [-8,8] the computed radicand is the squared Euclidean distance D = |a|^2 + |b|^2 - 2|a||b|cos(dir b - dir a) within (|a|^2+|b|^2)(u + 1.0003e-10) + 10*2^-1075, and the returned distance is sqrt(D) up to the square root of that error plus one rounding. '
-              'C13_symmetry: d(a,b) and d(b,a) agree within twice that tolerance. C13_law_of_cosines / C13_distance_euclid: the radicand IS the squared Euclidean distance of the Cartesian points; C13_triangle: d(a,c)(1-2^-53) <= (d(a,b)+d(b,c))(1+2^-52) + 2(tol_ab+tol_bc+tol_ac); C13_equals_sub: distance_to(a,b) equals |a - b| (general path of the subtraction) within twice the value tolerance. The inversion laws are decided against mpmath (S3, partial).')
+              'C13_symmetry: d(a,b) and d(b,a) agree within twice that tolerance. C13_law_of_cosines / C13_distance_euclid: the radicand IS the squared Euclidean distance of the Cartesian points; C13_triangle: d(a,c)(1-2^-53) <= (d(a,b)+d(b,c))(1+2^-52) + 2(tol_ab+tol_bc+tol_ac); C13_equals_sub: distance_to(a,b) equals |a - b| (general path of the subtraction) within twice the value tolerance. C13_inversion_value: the inverted point is c + v with v on the same ray as the computed offset (its angle bit for bit), |v||p-c| = r^2 within 3*2^-52 r^2, and its Cartesian point is that of c plus that of v within the tolerance of C06_cartesian. The fixed-circle and involution corollaries are decided against mpmath (S3).')
 LEVEL_NOTE = ('Partial. Trusted: Coq kernel + vm_compute; 4 standard-library axioms; plus the primitive-integer axioms (PrimInt63.*, Uint63.*_spec) that the Interval tactic uses for the two bounds on the real pi in PiBounds.v (value theorems only); hand-written model validated bit-for-bit each run with the recorded libm table.')
